@@ -35,7 +35,7 @@ RULESET = {
     'C06': drive.GREG,
     'C08': drive.MEEK,
 }
-NPROFILES = {'quick': 110, 'thorough': 1500}
+NPROFILES = {'quick': 150, 'thorough': 1500}
 
 
 _SCHED = {}
